@@ -22,6 +22,8 @@ pub mod ja;
 #[cfg(futures_buffered_verif)]
 pub mod mg;
 #[cfg(futures_buffered_verif)]
+pub mod reach;
+#[cfg(futures_buffered_verif)]
 pub mod sm;
 #[cfg(futures_buffered_verif)]
 pub mod wl;
